@@ -315,7 +315,7 @@ class CountingEvaluator:
         return p
 
     def evaluate(self, environment, learner):
-        _record("val.evaluate", self.tag, _env_name(environment), getattr(learner, "tag", type(learner).__name__))
+        _record("val.evaluate", self.tag, getattr(environment, "_c02_env", None), getattr(learner, "_c02_lrn", None))
         yield from self.inner.evaluate(environment, learner)
 
 
